@@ -177,22 +177,24 @@ End Hashed.
    ==================================================================================================== *)
 
 (* ---------- the cache key of a call is the implementation's dict key ---------- *)
-Lemma canon_all_total : forall ds vs, valid_all ds vs = true -> exists r, canon_all vs = Ok r.
+Lemma canon_all_total : forall ds vs, valid_all ds vs = true -> existsb has_mut vs = false -> exists r, canon_all vs = Ok r.
 Proof.
-  induction ds as [|d ds IH]; intros [|v vs] H; simpl in H; try discriminate.
+  induction ds as [|d ds IH]; intros [|v vs] H M; simpl in H; try discriminate.
   - exists []. reflexivity.
-  - apply andb_true_iff in H. destruct H as [Hv Hvs]. destruct (canon_total _ _ Hv) as [y Y]. destruct (IH _ Hvs) as [r R].
+  - apply andb_true_iff in H. destruct H as [Hv Hvs]. simpl in M. apply orb_false_iff in M. destruct M as [M0 M].
+    destruct (canon_total _ _ Hv M0) as [y Y]. destruct (IH _ Hvs M) as [r R].
     exists (y :: r). simpl. rewrite Y. simpl. rewrite R. reflexivity.
 Qed.
 
 (* two calls whose validated parameter instances are found equal by the dict lookup (hash equal and ==) have the
    same key, and conversely - for ALL values *)
 Lemma key_is_lookup fs a1 a2 v1 v2 : validate_args fs a1 = Ok v1 -> validate_args fs a2 = Ok v2 ->
+  existsb has_mut v1 = false -> existsb has_mut v2 = false ->
   (lookup_hit v1 v2 = true <-> norm_args fs a1 = norm_args fs a2).
 Proof.
-  intros V1 V2.
-  destruct (canon_all_total _ _ (validate_args_valid _ _ _ V1)) as [r R].
-  destruct (canon_all_total _ _ (validate_args_valid _ _ _ V2)) as [s S].
+  intros V1 V2 M1 M2.
+  destruct (canon_all_total _ _ (validate_args_valid _ _ _ V1) M1) as [r R].
+  destruct (canon_all_total _ _ (validate_args_valid _ _ _ V2) M2) as [s S].
   assert (norm_args fs a1 = Ok r) as N1 by (apply norm_args_split; exists v1; auto).
   assert (norm_args fs a2 = Ok s) as N2 by (apply norm_args_split; exists v2; auto).
   rewrite N1, N2, (lookup_hit_key v1 v2 r s R S). split; [intros ->; reflexivity|intros H; inversion H; reflexivity].
@@ -200,12 +202,13 @@ Qed.
 
 (* ... and whenever no Prefixed number has more than EPSILON decimal places, == alone decides *)
 Lemma key_is_eq fs a1 a2 v1 v2 : validate_args fs a1 = Ok v1 -> validate_args fs a2 = Ok v2 ->
+  existsb has_mut v1 = false -> existsb has_mut v2 = false ->
   fine_all v1 = true -> fine_all v2 = true ->
   (insts_eqb v1 v2 = true <-> norm_args fs a1 = norm_args fs a2).
 Proof.
-  intros V1 V2 F1 F2.
-  destruct (canon_all_total _ _ (validate_args_valid _ _ _ V1)) as [r R].
-  destruct (canon_all_total _ _ (validate_args_valid _ _ _ V2)) as [s S].
+  intros V1 V2 M1 M2 F1 F2.
+  destruct (canon_all_total _ _ (validate_args_valid _ _ _ V1) M1) as [r R].
+  destruct (canon_all_total _ _ (validate_args_valid _ _ _ V2) M2) as [s S].
   assert (norm_args fs a1 = Ok r) as N1 by (apply norm_args_split; exists v1; auto).
   assert (norm_args fs a2 = Ok s) as N2 by (apply norm_args_split; exists v2; auto).
   rewrite N1, N2. split.
